@@ -253,6 +253,11 @@ theorem C14_dim_message (da : DataArray) (m : Msg) (idx : Nat)
       have : idx - 1 + 1 = idx := by omega
       rw [this]; exact hs
 
+/-- missing data type -/
+theorem C14_complete_NoDataType (da : DataArray) :
+    .plain .NoDataType ∈ checkDataArray da ↔ falsy da.dataType = true := by
+  rw [mem_checkDataArray]; simp [mem_checkEntity, DimSpec]
+
 /-- "data dimensionality does not match number of defined dimensions": missing or surplus descriptors -/
 theorem C14_complete_DimensionMismatch (da : DataArray) :
     .plain .DimensionMismatch ∈ checkDataArray da ↔ da.dims.length ≠ da.shape.length := by
@@ -399,6 +404,15 @@ theorem C14_complete_feature (arrays : List DataArray) (t : Tag) (i : Nat) (k : 
     cases hk'
     exact ⟨ft, hj, hm⟩
   · rintro ⟨ft, hi, hm⟩; exact ⟨i, ft, hi, hm⟩
+
+/-- the four feature entries: missing id, missing date, linked data without entries, missing / unknown link type -/
+theorem C14_complete_feature_entries (arrays : List DataArray) (ft : Feature) (i : Nat) :
+    (.feature i .NoID ∈ checkFeature arrays ft i ↔ falsy ft.id = true) ∧
+    (.feature i .NoDate ∈ checkFeature arrays ft i ↔ ft.createdAt = none) ∧
+    (.feature i .NoData ∈ checkFeature arrays ft i ↔
+      ∃ da, ft.data.bind (fun k => arrays[k]?) = some da ∧ firstLen da.shape = some 0) ∧
+    (.feature i .NoLinkType ∈ checkFeature arrays ft i ↔ linkTypeOk ft.linkType = false) := by
+  refine ⟨?_, ?_, ?_, ?_⟩ <;> rw [mem_checkFeature] <;> simp
 
 /-! ## multi-tags -/
 
@@ -602,6 +616,79 @@ theorem C14_emits_array (da : DataArray) (m : Msg) (h : m ∈ checkDataArray da)
     all_goals first
       | exact Or.inr ⟨_, _, by decide, Or.inl rfl⟩
       | exact Or.inr ⟨_, _, by decide, Or.inr ⟨_, rfl⟩⟩
+
+/-- the catalogue identifier a message carries -/
+def msgId : Msg → MsgId
+  | .plain m => m
+  | .dim m _ => m
+  | .dim2 m _ _ => m
+  | .feature _ m => m
+  | .property _ m => m
+
+/-- every identifier some source function refers to -/
+def emittedIds : List MsgId := emits.flatMap (·.2)
+
+theorem emitsOf_sub (fn : String) (k : MsgId) (h : k ∈ emitsOf fn) : k ∈ emittedIds := by
+  simp only [emitsOf, emittedIds, List.mem_flatMap, List.mem_filter] at h ⊢
+  obtain ⟨p, ⟨hp, -⟩, hk⟩ := h
+  exact ⟨p, hp, hk⟩
+
+/-- **nothing else**: whatever object of whatever file — every message in its list carries an identifier that a
+function of `validator.py` refers to -/
+theorem C14_only_emitted (f : File) (kind : Kind) (msgs : List Msg) (m : Msg)
+    (h : IsCheckOf f kind msgs) (hm : m ∈ msgs) : msgId m ∈ emittedIds := by
+  have hent : ∀ e, m ∈ checkEntity e → msgId m ∈ emittedIds := by
+    intro e he
+    obtain ⟨k, hk, rfl⟩ := C14_emits_entity e m he
+    exact emitsOf_sub _ k hk
+  have happ : ∀ (a b : String) k, k ∈ emitsOf a ++ emitsOf b → k ∈ emittedIds := by
+    intro a b k hk
+    rcases List.mem_append.mp hk with hk | hk <;> exact emitsOf_sub _ k hk
+  cases kind with
+  | file =>
+    simp only [IsCheckOf] at h
+    subst h
+    unfold checkFileObj at hm
+    split at hm
+    · simp only [List.mem_singleton] at hm; subst hm; decide
+    · simp at hm
+  | block => obtain ⟨b, -, rfl⟩ := h; exact hent _ hm
+  | group => obtain ⟨b, -, g, -, rfl⟩ := h; exact hent _ hm
+  | source => obtain ⟨b, -, e, -, rfl⟩ := h; exact hent _ hm
+  | array =>
+    obtain ⟨b, -, da, -, rfl⟩ := h
+    rcases C14_emits_array da m hm with ⟨k, hk, rfl⟩ | ⟨idx, k, hk, rfl | ⟨v, rfl⟩⟩
+    · exact happ _ _ k hk
+    · rcases List.mem_append.mp hk with hk | hk
+      · exact happ _ _ k hk
+      · exact emitsOf_sub _ k hk
+    · rcases List.mem_append.mp hk with hk | hk
+      · exact happ _ _ k hk
+      · exact emitsOf_sub _ k hk
+  | tag =>
+    obtain ⟨b, -, t, -, rfl⟩ := h
+    rcases (C14_emits_tags b.arrays t ⟨t.ent, none, none, [], [], []⟩ m).1 hm with ⟨k, hk, rfl⟩ | ⟨i, k, hk, rfl⟩
+    · exact happ _ _ k hk
+    · exact emitsOf_sub _ k hk
+  | mtag =>
+    obtain ⟨b, -, t, -, rfl⟩ := h
+    rcases (C14_emits_tags b.arrays ⟨t.ent, 0, 0, [], [], []⟩ t m).2 hm with ⟨k, hk, rfl⟩ | ⟨i, k, hk, rfl⟩
+    · exact happ _ _ k hk
+    · exact emitsOf_sub _ k hk
+  | «section» =>
+    obtain ⟨n, -, rfl⟩ := h
+    rw [mem_checkSection] at hm
+    rcases hm with hm | ⟨i, p, -, hm⟩
+    · exact hent _ hm
+    · obtain ⟨k, hk, rfl⟩ := (C14_emits_feature_property [] ⟨none, false, none, none, none⟩ p i m).2 hm
+      exact emitsOf_sub _ k hk
+
+/-- two catalogue entries have no check: they are never reported, for no file and no object -/
+theorem C14_never_reported (f : File) (kind : Kind) (msgs : List Msg) (m : Msg)
+    (h : IsCheckOf f kind msgs) (hm : m ∈ msgs) :
+    msgId m ≠ .DimensionTypeMismatch ∧ msgId m ≠ .DataFrameMismatch := by
+  have := C14_only_emitted f kind msgs m h hm
+  constructor <;> intro he <;> rw [he] at this <;> revert this <;> decide
 
 /-- `check_file` visits the containers of a block in the order the model's `blockChecks` does, then the sections -/
 theorem C14_traversal_order :
